@@ -1,3 +1,79 @@
-"""C05 — streams end cleanly on early stop or failure."""
-from contracts.buffer import UNITS as BUF_UNITS
-UNITS = list(BUF_UNITS)
+"""C05 — streams end cleanly on early stop or failure - no hang, no leak.
+
+Structural obligations (DESIGN 2.4): S3 every producer ends with a terminal item on every exit path and forwards every
+failure kind in the quantifier (Exception and StopRequested); consumers never `get` after the terminal item; every
+generator runs its finalizer on every exit (stop flag set, helper thread joined, executor shut down); S1/E3 a `join` is
+reached only when it cannot block: Buffer-style finalizers drain with timed gets until the worker is dead; fifo_stream's
+finalizer relies on the put-credit lemma K <= free slots (K = 2 <= capacity + 1)."""
+import z3
+
+from pyvc.unit import LemmaUnit, LoopSpec
+from contracts.buffer import UNITS as BUF_UNITS, FINISHED, STOPPED
+from contracts.fifo import FeedUnit, FeedUnitNoPre, ConsumerUnit, ConsumerUnitNoPre
+from contracts.c16 import AFeed, AFeedNoPre, AConsumer, AConsumerNoPre
+from contracts.c01 import ParmapperIter, ParmapperIterProcess
+from contracts.c12 import ThreadRun, ThreadRunNoTarget, ThreadJoin
+
+
+class FeedUnderStop(FeedUnit):
+    """S1 put-credit of fifo_stream's feeder: once the stop flag is set (and stays set) the feeder starts no further
+    iteration and performs at most ONE more put after the loop head (the terminal item); together with the put it may be
+    blocked in, K = 2."""
+    variant = 'under-stop'
+    canaries = (('feeder ignores the stop flag', '                if to_stop.is_set():\n                    break', '                if to_stop.is_set():\n                    pass', 'no further iteration'),)
+
+    def __init__(self):
+        super().__init__()
+        self.name = f'{self.prop}:{self.qual}[under-stop]'
+
+    def setup(self, ex):
+        st = super().setup(ex)
+        self.to_stop.set(st, 'flag', z3.BoolVal(True))
+        return st
+
+    @property
+    def loops(self):
+        base = super().loops
+        sp = base[0]
+
+        def head(h, ex):
+            h.ghost['#nput_head'] = self.q.nput(h)
+        sp.at_head = head
+        sp.on_backedge = lambda s, ex: ex.oblige(s, 'under stop: no further iteration once the stop flag is set', False)
+        return base
+
+    def post(self, ex, outs):
+        super().post(ex, outs)
+        for k, s, p in outs:
+            if k in ('normal', 'return') and '#nput_head' in s.ghost:
+                ex.oblige(s, 'under stop: at most one more put after the flag is seen (the terminal item)', self.q.nput(s) - s.ghost['#nput_head'] <= 1)
+
+
+class AFeedUnderStop(FeedUnderStop):
+    qual = 'async_fifo_stream.<locals>.feed'
+    qname = 'tasks'
+    prop = 'C16'
+    canaries = ()
+
+
+class CreditLemma(LemmaUnit):
+    prop = 'C05'
+    qual = 'lemma(put-credit)'
+
+    def lemmas(self):
+        cap, maxsize, K = z3.Ints('capacity maxsize K')
+        yield ('fifo_stream: after the final drain saw the queue empty, the feeder needs at most K = 1 (the put it is blocked in) + 1 (terminal) = 2 more slots, and the queue has capacity + 1 >= 2',
+               [cap >= 1, maxsize == cap + 1, K == 1 + 1], K <= maxsize)
+
+
+UNITS = list(BUF_UNITS) + [FeedUnit, FeedUnitNoPre, FeedUnderStop, ConsumerUnit, ConsumerUnitNoPre, AFeed, AFeedNoPre, AFeedUnderStop, AConsumer, AConsumerNoPre,
+                           ParmapperIter, ParmapperIterProcess, ThreadRun, ThreadRunNoTarget, ThreadJoin, CreditLemma]
+ASSUMPTIONS = (
+    'stream elements are not equal to the library\'s FINISHED/STOPPED sentinel strings; user sources and functions return (terminate)',
+    'meta-theorem (DESIGN 2.4, not machine-checked): S1/S3/E3 obligations + fair scheduling => nothing blocks forever',
+    'KeyboardInterrupt/SystemExit raised inside producer threads are outside the property\'s quantifier',
+    'SingleLane precondition single reader / single writer: while a finalizer drains, the consumer loop is no longer reading',
+)
+NOT_DECIDED = ('bounded wall-clock time', 'AsyncIter (sync source behind run_in_executor): uses the event loop\'s default executor, no helper of its own',
+               'OS-level exit of threads after join() returns')
+SCENARIOS = [('', 'replay/scenarios/c05_early_close.py'), ('', 'replay/scenarios/c05_stoprequested.py')]
